@@ -25,12 +25,18 @@ type Params struct {
 	DropIdx  []int      `json:"dropidx"` // explicit packet indices that are lost
 	BurstAt  int        `json:"burstat"` // packets [BurstAt, BurstAt+BurstLen) are lost
 	BurstLen int        `json:"burstlen"`
+	// TruncPm > 0: each delivered copy arrives, with this probability in per mille (keyed hash of the packet index),
+	// TRUNCATED: its last 1..TruncMax bytes (TruncMax < 1 counts as 1) are cut off, as a datagram damaged on the way.
+	// Not after HealMs. Zero values (the default, omitted from the JSON form) leave the schedule as it always was.
+	TruncPm  int `json:"truncpm,omitempty"`
+	TruncMax int `json:"truncmax,omitempty"`
 }
 
 // Decision is the fate of one packet.
 type Decision struct {
 	Drop   bool
 	Delays []time.Duration // one delivery per entry
+	Trunc  []int           // optional, parallel to Delays: number of bytes cut off the end of that copy (0: whole)
 }
 
 // Packet is a log record.
@@ -56,12 +62,13 @@ type Net struct {
 	Decide func(dir, idx int, pkt []byte, now time.Duration) (Decision, bool)
 	// OnSend, when set, is told about every packet: direction, bytes, time of sending and the times at which copies
 	// will be delivered (none if dropped), all relative to the creation of the network. Called without locks held.
+	// Copies that are delivered truncated (Decision.Trunc) are not copies of the packet and are not listed.
 	OnSend func(dir int, pkt []byte, sent time.Duration, deliveries []time.Duration)
 	// Log of the first LogCap packets
 	Log    []Packet
 	LogCap int
 	KeepBytes bool
-	Stats  struct{ Sent, Dropped, Duplicated, Delayed, Overflow [2]int }
+	Stats  struct{ Sent, Dropped, Duplicated, Delayed, Overflow, Truncated [2]int }
 	dead   bool
 }
 
@@ -158,6 +165,15 @@ func (n *Net) decide(dir, idx int, pkt []byte, now time.Duration) Decision {
 	if p.DupPct > 0 && int(roll(p.Seed, dir, idx, 3)%100) < p.DupPct {
 		d.Delays = append(d.Delays, base+jit(4))
 	}
+	if p.TruncPm > 0 {
+		for i := range d.Delays {
+			cut := 0
+			if int(roll(p.Seed, dir, idx, 5+2*uint64(i))%1000) < p.TruncPm {
+				cut = 1 + int(roll(p.Seed, dir, idx, 6+2*uint64(i))%uint64(max(1, p.TruncMax)))
+			}
+			d.Trunc = append(d.Trunc, cut)
+		}
+	}
 	return d
 }
 
@@ -200,10 +216,11 @@ func (e *End) WriteMsg(b []byte) error {
 	// delivery times: keep FIFO among packets of equal delay (strictly increasing)
 	type dl struct{ at time.Time }
 	var times []time.Time
+	var cuts []int
 	if !d.Drop {
 		nowT := time.Now()
 		p := &n.P[e.dir]
-		for _, delay := range d.Delays {
+		for i, delay := range d.Delays {
 			at := nowT.Add(delay)
 			if p.JitterMs <= 0 || (p.HealMs >= 0 && now.Milliseconds() >= p.HealMs) {
 				if !at.After(n.last[e.dir]) {
@@ -212,6 +229,12 @@ func (e *End) WriteMsg(b []byte) error {
 				n.last[e.dir] = at
 			}
 			times = append(times, at)
+			cut := 0
+			if i < len(d.Trunc) && d.Trunc[i] > 0 {
+				cut = min(d.Trunc[i], len(pkt))
+				n.Stats.Truncated[e.dir]++
+			}
+			cuts = append(cuts, cut)
 			if delay > 0 {
 				n.Stats.Delayed[e.dir]++
 			}
@@ -220,17 +243,23 @@ func (e *End) WriteMsg(b []byte) error {
 	n.mu.Unlock()
 	if n.OnSend != nil {
 		var rel []time.Duration
-		for _, at := range times {
-			rel = append(rel, at.Sub(n.start))
+		for i, at := range times {
+			if cuts[i] == 0 {
+				rel = append(rel, at.Sub(n.start))
+			}
 		}
 		n.OnSend(e.dir, pkt, now, rel)
 	}
-	for _, at := range times {
+	for i, at := range times {
+		what := pkt
+		if cuts[i] > 0 {
+			what = append([]byte(nil), pkt[:len(pkt)-cuts[i]]...)
+		}
 		wait := time.Until(at)
 		if wait <= 0 {
-			e.peer.deliver(pkt)
+			e.peer.deliver(what)
 		} else {
-			time.AfterFunc(wait, func() { e.peer.deliver(pkt) })
+			time.AfterFunc(wait, func() { e.peer.deliver(what) })
 		}
 	}
 	return nil
